@@ -71,9 +71,15 @@ P12_Inverse(r) ==
                              /\ r.data2 = r.data                                           \* build - parse - build gives the same string
          [] r.k = "deploy" -> SameRes(r.parse, Val([code |-> r.code, vm |-> r.vm, meta |-> r.meta, args |-> r.args]))
          [] r.k = "su" -> SameRes(r.parse, Val(r.us)) /\ r.data2 = r.data
-         [] r.k = "msg" -> /\ r.parse.cls = "value" /\ r.parse.v.fn = r.which
-                           /\ (r.which = FnESDTTransfer => r.parse.v.args = r.in)
-                           /\ SameRes(r.dst, MsgSenderView(r))
+         [] r.k = "msg" -> \* what can be observed of the unexported message encoder: the emitted string parses, names the
+                           \* function, is exactly what the builder makes of its own parse (so parse inverts the encoder on it),
+                           \* and the attached call read off the message is the one the sender attached.  Token amounts and
+                           \* payloads are ledger semantics (C01, C10) and are not compared here.
+                           /\ r.parse.cls = "value" /\ r.parse.v.fn = r.which
+                           /\ Build(r.parse.v.fn, r.parse.v.args) = r.data /\ r.data2 = r.data
+                           /\ LET sv == MsgSenderView(r)
+                                  dv == ParseTransfers(r.snd, r.rcv, r.parse.v.fn, r.parse.v.args) IN
+                              dv.cls = "value" /\ dv.v.fn = sv.v.fn /\ dv.v.args = sv.v.args /\ dv.v.rcv = sv.v.rcv
 
 \* ====================================================================== C14
 Enc(k, v) == CASE k = "amt" -> EncAmount(v) [] k = "tok" -> EncToken(v) [] k = "meta" -> EncMeta(v) [] k = "roles" -> EncRoles(v)
